@@ -16,11 +16,12 @@ import (
 // a goroutine of its own): what happens in one session never changes the verdict in another. Statement-level
 // scheduling points in cmd/auth/ntlm, and one where the user database is asked.
 
-type yieldDB struct{ inner database.Database }
+// (the interface is embedded: whatever else the verifier asks its database goes straight through)
+type yieldDB struct{ database.Database }
 
 func (d yieldDB) GetPassword(u string) string {
 	vsched.Yield("database.GetPassword")
-	p := d.inner.GetPassword(u)
+	p := d.Database.GetPassword(u)
 	vsched.Yield("database.GetPassword:return")
 	return p
 }
